@@ -215,6 +215,96 @@ impl Report {
         }
     }
 
+    /// serialise the counters and findings of a sub report (for worker processes)
+    pub fn to_json(&self) -> J {
+        let mut out = J::obj();
+        out.set("evaluations", J::Int(self.evaluations as i64));
+        out.set("distinct", J::Arr(self.distinct.iter().map(|h| J::s(format!("{h:x}"))).collect()));
+        let mut counters = J::obj();
+        for (k, v) in &self.counters {
+            counters.set(k, J::Int(*v as i64));
+        }
+        out.set("counters", counters);
+        let mut sets = J::obj();
+        for (k, v) in &self.sets {
+            sets.set(k, J::Arr(v.iter().map(|h| J::s(format!("{h:x}"))).collect()));
+        }
+        out.set("sets", sets);
+        out.set("samples", J::Arr(self.samples.clone()));
+        out.set("inconclusive", J::arr_of_str(self.inconclusive.iter().cloned()));
+        out.set(
+            "violations",
+            J::Arr(
+                self.violations
+                    .iter()
+                    .map(|v| J::obj().with("rule", J::s(&v.rule)).with("sig", J::s(&v.sig)).with("detail", J::s(&v.detail)).with("count", J::Int(v.count as i64)).with("replay", v.replay.clone()))
+                    .collect(),
+            ),
+        );
+        let mut extra = J::obj();
+        for (k, v) in &self.extra {
+            extra.set(k, v.clone());
+        }
+        out.set("extra", extra);
+        out
+    }
+
+    /// merge a sub report serialised with to_json
+    pub fn merge_json(&mut self, j: &J) {
+        self.evaluations += j.get("evaluations").and_then(J::as_i64).unwrap_or(0) as u64;
+        if let Some(J::Arr(d)) = j.get("distinct") {
+            for h in d {
+                if let Some(h) = h.as_str().and_then(|s| u64::from_str_radix(s, 16).ok()) {
+                    self.distinct.insert(h);
+                }
+            }
+        }
+        if let Some(J::Obj(c)) = j.get("counters") {
+            for (k, v) in c {
+                self.count(k, v.as_i64().unwrap_or(0) as u64);
+            }
+        }
+        if let Some(J::Obj(sets)) = j.get("sets") {
+            for (k, v) in sets {
+                if let J::Arr(items) = v {
+                    for h in items {
+                        if let Some(h) = h.as_str().and_then(|s| u64::from_str_radix(s, 16).ok()) {
+                            self.distinct_in(k, h);
+                        }
+                    }
+                }
+            }
+        }
+        if let Some(J::Arr(s)) = j.get("samples") {
+            for x in s {
+                self.sample(x.clone());
+            }
+        }
+        if let Some(J::Arr(s)) = j.get("inconclusive") {
+            for x in s {
+                if let Some(r) = x.as_str() {
+                    self.inconclusive(r);
+                }
+            }
+        }
+        if let Some(J::Arr(vs)) = j.get("violations") {
+            for v in vs {
+                let g = |k: &str| v.get(k).and_then(J::as_str).unwrap_or("").to_string();
+                let n = v.get("count").and_then(J::as_i64).unwrap_or(1) as u64;
+                let sig = g("sig");
+                self.violation(&g("rule"), &sig, &g("detail"), v.get("replay").cloned().unwrap_or(J::Null));
+                if let Some(mine) = self.violations.iter_mut().find(|m| m.sig == sig) {
+                    mine.count += n.saturating_sub(1);
+                }
+            }
+        }
+        if let Some(J::Obj(e)) = j.get("extra") {
+            for (k, v) in e {
+                self.extra.entry(k.clone()).or_insert(v.clone());
+            }
+        }
+    }
+
     /// write evidence, print verdict lines, return the exit code
     pub fn finish(mut self) -> i32 {
         let root = verif_root();
@@ -412,4 +502,71 @@ pub fn cpu_count() -> usize {
         .ok()
         .and_then(|s| s.parse().ok())
         .unwrap_or_else(|| std::thread::available_parallelism().map_or(8, |n| n.get()))
+}
+
+
+/// run worker processes `vh <args..> <shard> <nshards>` in parallel and merge the reports they print as `REPORT <json>`
+pub fn run_worker_processes(rep: &mut Report, base_args: &[String], shards: usize, timeout_s: u64) {
+    use std::os::unix::process::ExitStatusExt;
+    use std::process::{Command, Stdio};
+    let exe = std::env::current_exe().expect("current_exe");
+    let results: Vec<(usize, Option<i32>, Option<i32>, bool, String)> = std::thread::scope(|s| {
+        let handles: Vec<_> = (0..shards)
+            .map(|i| {
+                let exe = exe.clone();
+                let mut args = base_args.to_vec();
+                args.push(i.to_string());
+                args.push(shards.to_string());
+                s.spawn(move || {
+                    let mut child = match Command::new(&exe).args(&args).stdout(Stdio::piped()).stderr(Stdio::null()).spawn() {
+                        Ok(c) => c,
+                        Err(e) => return (i, None, None, false, format!("spawn failed: {e}")),
+                    };
+                    let mut stdout = child.stdout.take().unwrap();
+                    let reader = std::thread::spawn(move || {
+                        let mut s = String::new();
+                        let _ = std::io::Read::read_to_string(&mut stdout, &mut s);
+                        s
+                    });
+                    let start = Instant::now();
+                    let mut timed_out = false;
+                    let status = loop {
+                        match child.try_wait() {
+                            Ok(Some(st)) => break Some(st),
+                            Ok(None) => {
+                                if start.elapsed().as_secs() >= timeout_s {
+                                    timed_out = true;
+                                    let _ = child.kill();
+                                    break child.wait().ok();
+                                }
+                                std::thread::sleep(std::time::Duration::from_millis(20));
+                            }
+                            Err(_) => break None,
+                        }
+                    };
+                    let out = reader.join().unwrap_or_default();
+                    (i, status.and_then(|s| s.code()), status.and_then(|s| s.signal()), timed_out, out)
+                })
+            })
+            .collect();
+        handles.into_iter().map(|h| h.join().unwrap()).collect()
+    });
+    for (i, code, signal, timed_out, out) in results {
+        let mut got = false;
+        for line in out.lines() {
+            if let Some(json) = line.strip_prefix("REPORT ") {
+                if let Ok(j) = crate::json::parse(json) {
+                    rep.merge_json(&j);
+                    got = true;
+                }
+            }
+        }
+        if !got {
+            if timed_out {
+                rep.inconclusive(&format!("worker process {i} exceeded its time budget of {timeout_s} s"));
+            } else {
+                rep.inconclusive(&format!("worker process {i} ended without a report (exit {code:?}, signal {signal:?})"));
+            }
+        }
+    }
 }
